@@ -12,6 +12,14 @@ WITNESSES = [("sort", "[sort | .[] | path]", "[3,1,2]", "[[1],[2],[0]]"), ("sort
              ("unique", "[unique | .[] | path]", "[1,1,2]", "[[0],[2]]"), ("flatten", "[flatten | .[] | path]", "[[1],[2]]", "[[0],[0]]")]
 
 
+def compound_add(e):
+    if isinstance(e, tuple):
+        if len(e) > 1 and e[0] == "compound" and e[1] == "add":
+            return True
+        return any(compound_add(x) for x in e[1:])
+    return False
+
+
 def run(chk):
     thorough = chk.tier == "thorough"
     proved, plog = chk.prove("Props/C16.v")
@@ -97,7 +105,9 @@ def run(chk):
         if got != want and texts(got) != texts(want):
             # a rebuilt container written back into the document carries its stale keys with it: the recorded class,
             # provided the model (AddChild keeps a Key) predicts exactly this output
-            rb = [o for o in c03.STALE_OPS if o in evalgen.ops_of(u)]
+            # (`x += y` is `x = x + y`: the same addSequences -> AddChild call site as `+`)
+            uops = evalgen.ops_of(u) + (["add"] if compound_add(u) else [])
+            rb = [o for o in c03.STALE_OPS if o in uops]
             if rb and (hoff + i) not in mm and (hoff + i) not in evalcheck.LAST_UNSUP and chk.is_known("stale-key-" + rb[0]):
                 stale.setdefault(rb[0], (evalgen.render(cases[hoff + i][0]), d, got, want))
                 continue
